@@ -15,6 +15,9 @@
 #include <atomic>
 #include <thread>
 #include <new>
+#if defined(__SANITIZE_ADDRESS__)
+extern "C" int __sanitizer_install_malloc_and_free_hooks(void (*malloc_hook)(const volatile void*, size_t), void (*free_hook)(const volatile void*)); // libasan
+#endif
 using namespace asl;
 using namespace vh;
 
@@ -40,6 +43,25 @@ struct WS : public WebSocket
 		if (st.size() == 32) memcpy((void*)&_random, st.data(), 32);
 	}
 };
+
+// Largest single allocation made while an op runs (ASan allocator hook): the property says a frame header
+// alone must not make the library reserve the announced length, so the harness compares this with the
+// number of bytes it actually sent (Array doubles its capacity: factor 2, plus one 64 KiB chunk and slack).
+static std::atomic<size_t> g_maxAlloc(0);
+static void onMalloc(const volatile void*, size_t n)
+{
+	size_t cur = g_maxAlloc.load();
+	while (n > cur && !g_maxAlloc.compare_exchange_weak(cur, n)) {}
+}
+static void onFree(const volatile void*) {}
+static bool allocTooBig(size_t sent, std::string& why)
+{
+	size_t limit = 2 * sent + (1u << 20);
+	size_t m = g_maxAlloc.load();
+	if (m <= limit) return false;
+	why = "alloc-exceeds-received max=" + str((long long)m) + " sent=" + str((long long)sent);
+	return true;
+}
 
 struct Peer
 {
@@ -202,6 +224,7 @@ static std::string step(const Toks& t)
 		if (socketpair(AF_UNIX, SOCK_STREAM, 0, fd) != 0) return "err socketpair";
 		Peer peer(fd[1], stream);
 		Result r;
+		g_maxAlloc = 0;
 		{
 			WS ws(Socket(new Socket_(fd[0])), ic);
 			ws.setRng(st);
@@ -209,6 +232,8 @@ static std::string step(const Toks& t)
 			receiveAll(ws, fd[0], peer.doneWriting, stream.size() + 2, r);
 		}
 		peer.join();
+		std::string why;
+		if (allocTooBig(stream.size(), why)) return why;
 		return show(r, peer.got);
 	}
 	if (op == "tx" && t.size() == 5 && role(t[1], ic))
@@ -283,6 +308,58 @@ static std::string step(const Toks& t)
 		peer.join();
 		return hex(peer.got);
 	}
+	if (op == "bigsum" && t.size() == 3)
+	{
+		// fragments of one binary message, each `len` bytes of 'a', generated here (too long for the line protocol):
+		// only the lengths of what receive() returns are reported
+		long long len = num(t[1]);
+		int nfrag = (int)num(t[2]);
+		if (len <= 0 || len > 0x7ffffff0LL || nfrag < 1 || nfrag > 8) return "bad-op";
+		int fd[2];
+		if (socketpair(AF_UNIX, SOCK_STREAM, 0, fd) != 0) return "err socketpair";
+		std::atomic<bool> done(false);
+		std::thread writer([&]() {
+			std::string blk(1 << 20, 'a');
+			for (int f = 0; f < nfrag; f++)
+			{
+				unsigned char h[10] = { (unsigned char)((f == 0 ? 2 : 0) | (f == nfrag - 1 ? 0x80 : 0)), 0x7f, 0, 0, 0, 0,
+					(unsigned char)(len >> 24), (unsigned char)(len >> 16), (unsigned char)(len >> 8), (unsigned char)len };
+				if (::send(fd[1], h, 10, MSG_NOSIGNAL) != 10) break;
+				long long left = len;
+				while (left > 0) {
+					ssize_t n = ::send(fd[1], blk.data(), (size_t)(left < (long long)blk.size() ? left : (long long)blk.size()), MSG_NOSIGNAL);
+					if (n <= 0) { left = -1; break; }
+					left -= n;
+				}
+				if (left < 0) break;
+			}
+			shutdown(fd[1], SHUT_WR);
+			done = true;
+		});
+		std::string out = "lens=";
+		bool neg = false, closed = false, badalloc = false;
+		g_maxAlloc = 0;
+		try {
+			WS ws(Socket(new Socket_(fd[0])), false);
+			for (int k = 0; k < nfrag + 2; k++)
+			{
+				settle(fd[0], done);
+				if (ws.closed()) break;
+				WebSocketMsg m = ws.receive();
+				if (m.length() < 0) { neg = true; break; }
+				out += (k ? "," : "") + str(m.length());
+			}
+			closed = ws.closed();
+		}
+		catch (std::bad_alloc&) { badalloc = true; }
+		::close(fd[1]);
+		writer.join();
+		if (neg) return "negative-length";
+		if (badalloc) return "bad_alloc";
+		std::string why;
+		if (allocTooBig((size_t)len * (size_t)nfrag, why)) return why;
+		return out + " closed=" + (closed ? "1" : "0");
+	}
 	if (op == "tcp" && t.size() >= 3 && (t.size() - 3) % 3 == 0)
 	{
 		// library client <-> library server over loopback TCP, both real handshakes
@@ -338,5 +415,8 @@ static std::string step(const Toks& t)
 int main()
 {
 	signal(SIGPIPE, SIG_IGN);
+#if defined(__SANITIZE_ADDRESS__)
+	__sanitizer_install_malloc_and_free_hooks(onMalloc, onFree);
+#endif
 	return run([]() {}, step);
 }
